@@ -79,18 +79,21 @@ type App struct {
 	cur     *World
 	startAt int64 // height at which the next history starts
 	nextCommit bool // the next history started on this worker runs in commit mode (on a chain of its own)
+	db            dbm.DB // commit mode: the node's database (survives a node restart)
+	noNodeRestart bool   // replicas of the replay differential never restart the node
 	commit  bool  // built by NewAppAt: one history, through BeginBlock / EndBlock / Commit
 }
 
 // NewApp builds a fresh chain (real bank/auth/params keepers, IAVL store) and
 // registers the two module doubles the way a host chain would in its app wiring.
-func NewApp() *App { return newAppOn(simapp.Setup(false)) }
+func NewApp() *App { return newAppOn(simapp.Setup(false), true) }
 
 // NewAppAt builds a chain whose first block has the given height (what simapp.Setup does,
 // plus InitialHeight), so that a history can go through the application's real
 // BeginBlock / EndBlock / Commit at any start height ("commit mode").
 func NewAppAt(initialHeight int64) *App {
-	app := simapp.NewSimApp(log.NewNopLogger(), dbm.NewMemDB(), nil, true, map[int64]bool{}, simapp.DefaultNodeHome, 0, simapp.MakeEncodingConfig())
+	db := dbm.NewMemDB()
+	app := simapp.NewSimApp(log.NewNopLogger(), db, nil, true, map[int64]bool{}, simapp.DefaultNodeHome, 0, simapp.MakeEncodingConfig())
 	stateBytes, err := json.MarshalIndent(simapp.NewDefaultGenesisState(), "", " ")
 	must(err)
 	app.InitChain(abci.RequestInitChain{
@@ -100,17 +103,34 @@ func NewAppAt(initialHeight int64) *App {
 		AppStateBytes:   stateBytes,
 		InitialHeight:   initialHeight,
 	})
-	a := newAppOn(app)
+	a := newAppOn(app, true)
 	a.commit = true
+	a.db = db
 	return a
 }
 
-func newAppOn(app *simapp.SimApp) *App {
+// restartNode (commit mode, between a Commit and the next BeginBlock) does what a node restart
+// does: the application object is thrown away and built again over the same database, loading
+// the last committed version; the host application registers its callbacks and module
+// services again. Everything the module keeps outside the store is gone.
+func (w *World) restartNode() {
+	old := w.a
+	sim := simapp.NewSimApp(log.NewNopLogger(), old.db, nil, true, map[int64]bool{}, simapp.DefaultNodeHome, 0, simapp.MakeEncodingConfig())
+	na := newAppOn(sim, false)
+	na.commit, na.db, na.startAt, na.noNodeRestart = true, old.db, old.startAt, old.noNodeRestart
+	na.cur = w
+	old.cur = nil
+	w.a = na
+}
+
+func newAppOn(app *simapp.SimApp, withBaseCtx bool) *App {
 	a := &App{}
 	a.app = app
 	a.k = a.app.ServiceKeeper
 	a.handler = service.NewHandler(a.k)
-	a.baseCtx = a.app.BaseApp.NewContext(false, tmproto.Header{Height: startHeight, Time: genesisTime})
+	if withBaseCtx {
+		a.baseCtx = a.app.BaseApp.NewContext(false, tmproto.Header{Height: startHeight, Time: genesisTime})
+	}
 	a.modSvcProvider = sdk.AccAddress(sha256Sum("modsvc-provider")[:20])
 
 	must(a.k.RegisterResponseCallback(verifModule, func(ctx sdk.Context, id tmbytes.HexBytes, outputs []string, err error) {
@@ -215,6 +235,7 @@ type World struct {
 	commit            bool // real BeginBlock / EndBlock / Commit of the application around every block
 	begun             bool
 	appHashes         []string
+	nodeRestarts      int
 	endBlockEvents    map[int64][]abci.Event // commit mode: what the application returned from EndBlock, per height
 
 	tracked    map[string]string // addr hex -> name, accounts whose balance is observed
@@ -639,9 +660,16 @@ func (w *World) CommitAndBegin() string {
 		}
 	}
 	hdr := tmproto.Header{Height: w.height, Time: w.now}
+	w.appHashes = append(w.appHashes, hash)
+	if !w.a.noNodeRestart && len(w.appHashes)%5 == 2 {
+		// the recorded run restarts its node here; the replicas of the replay differential do
+		// not - their digests and application hashes must agree all the same (C20: "independent
+		// of process")
+		w.restartNode()
+		w.nodeRestarts++
+	}
 	w.a.app.BeginBlock(abci.RequestBeginBlock{Header: hdr})
 	w.ctx = w.a.app.BaseApp.NewContext(false, hdr)
-	w.appHashes = append(w.appHashes, hash)
 	return hash
 }
 
